@@ -1,6 +1,7 @@
 """C04 — all metadata survives write -> read unchanged (DESIGN §4 C04)."""
 from mirlib import *
 import xml_rules
+import norm_rules
 import pcw_rules
 
 TECHNIQUE = "XML schema extraction from MIR: symbolic evaluation of the serialisers (decoded format templates, expanded helper calls) into a document skeleton with field provenance; reader lookup tables per struct field; writer/reader inverse-map comparison, field coverage, format-spec check, escaping-gate dataflow, setter and raw-XML identity dataflow"
@@ -34,6 +35,7 @@ def run(ctx):
         xml_rules.setters(ctx, prog, "R3")
         pcw_rules.finalize_protocol(ctx, prog, "R3")
         xml_rules.type_attributes(ctx, prog, "R4")
+        norm_rules.limit_parse_types(ctx, prog, "R4")
         xml_rules.escaping_gate(ctx, prog, "R5")
         xml_rules.raw_xml_identity(ctx, prog, "R6")
         xml_rules.string_values_unchanged(ctx, prog, "R6")
